@@ -389,11 +389,6 @@ func NewRateLimiter(config RateLimiterConfig) *RateLimiter {
 
 // AllowRequest checks if a request should be allowed
 func (rl *RateLimiter) AllowRequest(ip string, connID string) bool {
-	// Check global limit first
-	if !rl.globalLimiter.Allow() {
-		return false
-	}
-
 	// Check per-IP limit
 	if !rl.perIPLimiter.Allow(ip) {
 		return false
@@ -416,7 +411,9 @@ func (rl *RateLimiter) AllowRequest(ip string, connID string) bool {
 		}
 	}
 
-	return true
+	// Check global limit last so a request refused by its own per-IP or
+	// per-connection limit consumes no shared capacity
+	return rl.globalLimiter.Allow()
 }
 
 // AllowOperation checks if a specific operation type should be allowed
